@@ -80,6 +80,8 @@ pub struct Case {
     pub clonepanic: Option<u64>,
     /// the k-th (0-based, per case) logged destruction of an element panics
     pub droppanic: Option<u64>,
+    /// elements are a zero-sized type (vec / array / slice only; all payloads are 0)
+    pub zst: bool,
     pub threads: Vec<Vec<Op>>,
     pub owner: Owner,
     pub sched: Vec<usize>,
@@ -340,6 +342,7 @@ struct Partial {
     adapt: Option<Adapt>,
     clonepanic: Option<u64>,
     droppanic: Option<u64>,
+    zst: bool,
     threads: Vec<Vec<Op>>,
     owner: Option<Owner>,
     sched: Option<Vec<usize>>,
@@ -394,6 +397,7 @@ fn finish(p: Partial) -> Result<Case, String> {
         adapt,
         clonepanic: p.clonepanic,
         droppanic: p.droppanic,
+        zst: p.zst,
         threads: p.threads,
         owner: p.owner.unwrap_or(Owner::Drop),
         sched: p.sched.unwrap_or_default(),
@@ -464,6 +468,9 @@ pub fn parse_cases(text: &str) -> Result<Vec<Case>, String> {
                     .get(1)
                     .ok_or_else(|| format!("line {ln}: clonepanic <k>"))?;
                 p.clonepanic = Some(num::<u64>(k, "clonepanic", ln)?);
+            }
+            "zst" => {
+                p.zst = true;
             }
             "droppanic" => {
                 let k = toks
